@@ -2,6 +2,32 @@
 
 use std::sync::atomic::{AtomicPtr, Ordering};
 
+/// Verification hooks; compiled only with `--cfg rescrv_blue_verif`.
+#[cfg(rescrv_blue_verif)]
+pub mod verif {
+    use std::sync::atomic::{AtomicPtr, Ordering};
+
+    static HOOK: AtomicPtr<()> = AtomicPtr::new(std::ptr::null_mut());
+
+    /// Install a function called before every atomic pointer operation of the list.
+    pub fn set_yield_hook(f: Option<fn(u32)>) {
+        HOOK.store(
+            f.map(|f| f as *mut ()).unwrap_or(std::ptr::null_mut()),
+            Ordering::SeqCst,
+        );
+    }
+
+    #[inline]
+    pub fn yield_point(site: u32) {
+        let p = HOOK.load(Ordering::Relaxed);
+        if !p.is_null() {
+            // SAFETY: only ever stored from a `fn(u32)` in set_yield_hook.
+            let f: fn(u32) = unsafe { std::mem::transmute(p) };
+            f(site);
+        }
+    }
+}
+
 /////////////////////////////////////////////// Node ///////////////////////////////////////////////
 
 struct Node<T> {
@@ -16,10 +42,14 @@ impl<T> Node<T> {
     }
 
     fn set_next(&self, x: *mut Node<T>) {
+        #[cfg(rescrv_blue_verif)]
+        crate::verif::yield_point(1);
         self.next.store(x, Ordering::Release);
     }
 
     fn get_next(&self) -> *mut Node<T> {
+        #[cfg(rescrv_blue_verif)]
+        crate::verif::yield_point(2);
         self.next.load(Ordering::Acquire)
     }
 }
@@ -55,8 +85,12 @@ impl<T> List<T> {
     pub fn prepend(&self, data: T) {
         let node: *mut Node<T> = Box::leak(Box::new(Node::new(data)));
         loop {
+            #[cfg(rescrv_blue_verif)]
+            crate::verif::yield_point(4);
             let head = self.head.load(Ordering::Acquire);
             node_ptr::set_next(node, head);
+            #[cfg(rescrv_blue_verif)]
+            crate::verif::yield_point(3);
             if self
                 .head
                 .compare_exchange(head, node, Ordering::SeqCst, Ordering::SeqCst)
@@ -69,6 +103,8 @@ impl<T> List<T> {
 
     pub fn iter(&self) -> impl Iterator<Item = &T> + '_ {
         let _list = self;
+        #[cfg(rescrv_blue_verif)]
+        crate::verif::yield_point(4);
         let node = self.head.load(Ordering::Acquire);
         ListIterator { _list, node }
     }
